@@ -100,14 +100,27 @@ class Note:
             self.todo_payload.status if self.todo_payload else NoteType.BASIC
         )
         char = note_type.value
+        body = self.body.strip()
+        first_word = body.split(" ", maxsplit=1)[0]
+        # The priority of a done todo is normally left out. It MUST be kept,
+        # however, if the body itself starts with something that looks like a
+        # priority (otherwise that word would be read as the todo's priority).
+        body_starts_with_priority = (
+            len(first_word) == 2
+            and first_word[0] == "P"
+            and first_word[1].isdigit()
+        )
         priority = (
             f" {self.todo_payload.priority}"
             if self.todo_payload
-            and self.todo_payload.status
-            not in [NoteType.CLOSED_TODO, NoteType.CANCELED_TODO]
+            and (
+                self.todo_payload.status
+                not in [NoteType.CLOSED_TODO, NoteType.CANCELED_TODO]
+                or body_starts_with_priority
+            )
             else ""
         )
-        return f"{char}{priority} {self.body.strip()}\n"
+        return f"{char}{priority} {body}\n"
 
 
 @dataclass
